@@ -3,7 +3,7 @@ from __future__ import annotations
 
 import sympy as sp
 
-from ..spec import Checker, FR, obj_summary
+from ..spec import Checker, FR, obj_summary, nonzero_shift_oracle
 from ..sigmodel import make_signal, N, NCHAN, CF, BW, SR, T0
 from ..values import Num, StrV, ObjV, NONE, Hz, F, NONE_S, TupleV, SliceV, BoolV, CondV, NoneV
 from ..symeval import Raised
@@ -199,7 +199,7 @@ def _crop_sites(ck, prog, run):
     t = sp.Symbol("t", real=True)
     n = sp.Symbol("n", integer=True)
     P = sp.Symbol("P", integer=True, positive=True)
-    oracle_nz = lambda c, node, fr: False if "Allclose" in str(c) else None  # noqa: E731  (shift is not ~0)
+    oracle_nz = nonzero_shift_oracle()
     sites = []
     f_fast = prog.func("fast_len")
     f_tsh = prog.func("time_shift")
